@@ -173,17 +173,43 @@ func runC14(c *Ctx) {
 			if !ok {
 				return
 			}
-			for _, f := range w.factsAt(in) {
-				if f.Op == "==" && f.Truth && w.sameKey(f.X, on.Params[1]) {
-					k, _ := constInt(f.Y)
-					for _, cal := range w.calledFns(call) {
-						if cal == ra && k == idAlloc {
-							okA = true
-						}
-						if cal == rp && k == idPerms {
-							okP = true
+			mark := func(facts []Fact, cals []*ssa.Function) {
+				for _, f := range facts {
+					if f.Op == "==" && f.Truth && w.sameKey(f.X, on.Params[1]) {
+						k, _ := constInt(f.Y)
+						for _, cal := range cals {
+							if cal == ra && k == idAlloc {
+								okA = true
+							}
+							if cal == rp && k == idPerms {
+								okP = true
+							}
 						}
 					}
+				}
+			}
+			mark(w.factsAt(in), w.calledFns(call))
+			// a function variable chosen per timer id and called afterwards: each value it can
+			// hold, with the facts under which it was chosen
+			if call.Call.StaticCallee() == nil && !call.Call.IsInvoke() {
+				for _, lf := range w.guardedLeaves(call.Call.Value, call) {
+					var body *ssa.Function
+					switch x := lf.val.(type) {
+					case *ssa.MakeClosure:
+						body = w.closureBody(x)
+					case *ssa.Function:
+						body = x
+					}
+					if body == nil {
+						continue
+					}
+					cals := []*ssa.Function{body}
+					w.eachInstrDeep(body, func(i2 ssa.Instruction) {
+						if c2, ok := i2.(*ssa.Call); ok && c2.Call.StaticCallee() != nil {
+							cals = append(cals, c2.Call.StaticCallee())
+						}
+					})
+					mark(lf.facts, cals)
 				}
 			}
 		})
@@ -316,6 +342,11 @@ func runC14(c *Ctx) {
 			}
 			if p, ok := cs.Common().Value.(*ssa.Parameter); ok && !cs.Common().IsInvoke() {
 				return paramTargets[p]
+			}
+			// a local function variable (refresh := a.refreshPermissions / a literal, chosen by
+			// a switch): the functions it can hold
+			if !cs.Common().IsInvoke() {
+				return w.localFuncTargets(cs.Common().Value)
 			}
 			return nil
 		}
